@@ -355,6 +355,15 @@ impl Engine {
       _ => "0:0:0".into(),
     };
     self.out.emit(&format!("builder.oracle.c20 {toks} {fees} {}", render(c, &res, "/")), "true");
+    // hypotheses of c20_no_panic_partial: a panic must violate them, an ok must satisfy `Funded`
+    match &res {
+      Res::Panic(p) => self.out.emit(
+        &format!("builder.oracle.partial {:016x} {toks} panic/{p}", c.rate_bits),
+        "true",
+      ),
+      Res::Ok(_) => self.out.emit(&format!("builder.oracle.partial {:016x} {toks} ok", c.rate_bits), "true"),
+      Res::Err(_) => {}
+    }
     match &res {
       Res::Ok(tx) => {
         self.dist.hit("ok");
@@ -669,6 +678,15 @@ fn replay(path: &std::path::Path, e: &mut Engine) {
       }
       ["builder.oracle.feeformula", bits, _, _] => {
         // the model side compares the announced table of this rate with the closed formula
+        match u64::from_str_radix(bits, 16) {
+          Ok(b) if FeeRate::try_from(f64::from_bits(b)).is_ok() => {
+            e.announce(b);
+            e.out.emit(&line, "true");
+          }
+          _ => e.out.emit(&line, "bad-op"),
+        }
+      }
+      ["builder.oracle.partial", bits, ..] => {
         match u64::from_str_radix(bits, 16) {
           Ok(b) if FeeRate::try_from(f64::from_bits(b)).is_ok() => {
             e.announce(b);
